@@ -77,6 +77,8 @@ type GenOpts struct {
 	InitialismPct int
 	// SingleLetterPct: chance a name is a single-letter word (X, N).
 	SingleLetterPct int
+	// UnicodePct: chance a name (or tag) gets a word with non-ASCII letters.
+	UnicodePct int
 	// HollowPct: chance a nested struct has no exported field at all (only
 	// skipped fields, or none): e.g. an embedded mutex or bookkeeping struct.
 	HollowPct int
@@ -92,7 +94,7 @@ func (ns *nameSet) fresh(r *fw.Rand, o *GenOpts) []string {
 		if r.Chance(o.SingleLetterPct) {
 			ws = []string{string(rune('a' + r.Intn(26)))}
 		} else {
-			ws = RandomWords(r, r.Range(1, 3), o.InitialismPct)
+			ws = MaybeUnicode(r, RandomWords(r, r.Range(1, 3), o.InitialismPct), o.UnicodePct)
 		}
 		if tries > 50 {
 			ws = append(ws, fmt.Sprintf("x%d", len(ns.used)))
@@ -164,7 +166,7 @@ func randomSpec(r *fw.Rand, o *GenOpts, ns *nameSet, depth int) *Spec {
 			exported++
 		}
 		if !f.IsSkipped() && !f.IsEmbedded() && r.Chance(o.TagPct) {
-			f.TagWords = RandomWords(r, r.Range(1, 2), o.InitialismPct/2)
+			f.TagWords = MaybeUnicode(r, RandomWords(r, r.Range(1, 2), o.InitialismPct/2), o.UnicodePct)
 			if !UniqueSegmentation(f.TagWords) {
 				f.TagWords = []string{fw.Pick(r, OrdinaryWords), fmt.Sprintf("t%d", len(ns.used))}
 			}
@@ -569,7 +571,6 @@ func leafForType(t reflect.Type) *Leaf {
 	}
 	return nil
 }
-
 
 // FlattenedNamesDistinct reports whether the leaves have pairwise distinct
 // flattened Go names (concatenation of the non-embedded path names, also
